@@ -323,3 +323,4 @@ B("c11-tsp-counter-minus", "C11", "C11.R6", (R + "tsp/env.py", "TSP._update_stat
 B("c11-tsp-done-ne", "C11", "C11.R6", (R + "tsp/env.py", "TSP.step", "expr", "next_state.num_visited == self.num_cities", "next_state.num_visited != self.num_cities"))
 T("c09-twin-maze-logical-not", "C09", (R + "maze/env.py", "Maze.step", "expr", "~jnp.any(action_mask)", "jnp.logical_not(action_mask.any())"))
 T("c11-twin-tsp-ge", "C11", (R + "tsp/env.py", "TSP.step", "expr", "next_state.num_visited == self.num_cities", "next_state.num_visited >= self.num_cities"))
+B("c05-jobshop-penalty-and", "C05", "C05.R4", (P + "job_shop/env.py", "JobShop.step", "expr", "invalid | all_machines_idle", "invalid & all_machines_idle", 2))
